@@ -9,7 +9,7 @@
 //! all-hoisted variants.
 //!
 //! One line per case, TAB separated:
-//!   0 case key   `<mode> <hex(src)> <start-end,start-end,…|->`   (spans = literal leaves in src)
+//!   0 case key   `<mode> <hex(src)> <start-end,start-end,…|-> <t|e> <tag>`   (spans = literal leaves in src)
 //!   1 ast        tokens of the real AST of the all-literal source (grammar below)
 //!   2 load       `ok` | `err:<Kind>` | `panic`  (worst over all variants: template_from_str)
 //!   3 k          number of literal leaves
@@ -22,6 +22,11 @@
 //!  10 vallit     `compile_expression(all-literal).eval`: `ok <value>` | `err:<Kind>` | `panic`
 //!  11 valhoist   `compile_expression(all-hoisted).eval(ctx)`
 //!  12 cfg        environment configuration of the case (plain | html | formatter | nodebug | syntax)
+//!  13 tag        generator of the case: `-` | `sized:<e|s><form>:<n>:<class>`
+//!  14 codes      `-` or `<mask>|<ast tokens of the variant>|<LoadConst values of its instruction stream, comma separated>;…`
+//!
+//! Spans may nest (a literal container around its literal items); bit i of a mask = span i hoisted, a
+//! hoisted outer span hides the spans inside it.
 //!
 //! AST tokens: `k <value>` const | `v <name>` | `L n E*` | `T n E*` | `M n (E E)*` | `not E` |
 //! `neg E` | `b <op> E E` | `c n E (<op> E)*` | `call npos nkw E* (<name> E)*` | `X`.
@@ -153,6 +158,39 @@ fn cmpop_name(op: &ast::CompareOpKind) -> &'static str {
     }
 }
 
+/// the general call form: `callx <kind> <nrecv> <name> <nargs> recv* (p E | ps E | k <name> E | ks E)*`
+fn dump_callx(kind: &str, name: &str, recv: Option<&ast::Expr>, args: &[ast::CallArg], out: &mut Vec<String>) {
+    out.push("callx".into());
+    out.push(kind.into());
+    out.push(if recv.is_some() { "1" } else { "0" }.into());
+    out.push(if name.is_empty() { "-".into() } else { name.into() });
+    out.push(args.len().to_string());
+    if let Some(e) = recv {
+        dump_expr(e, out);
+    }
+    for a in args {
+        match a {
+            ast::CallArg::Pos(e) => {
+                out.push("p".into());
+                dump_expr(e, out);
+            }
+            ast::CallArg::PosSplat(e) => {
+                out.push("ps".into());
+                dump_expr(e, out);
+            }
+            ast::CallArg::Kwarg(n, e) => {
+                out.push("k".into());
+                out.push(n.to_string());
+                dump_expr(e, out);
+            }
+            ast::CallArg::KwargSplat(e) => {
+                out.push("ks".into());
+                dump_expr(e, out);
+            }
+        }
+    }
+}
+
 fn dump_args(tag: &str, name: &str, first: Option<&ast::Expr>, args: &[ast::CallArg], out: &mut Vec<String>) -> bool {
     let mut pos: Vec<&ast::Expr> = vec![];
     let mut kws: Vec<(&str, &ast::Expr)> = vec![];
@@ -160,12 +198,16 @@ fn dump_args(tag: &str, name: &str, first: Option<&ast::Expr>, args: &[ast::Call
         match a {
             ast::CallArg::Pos(e) if kws.is_empty() => pos.push(e),
             ast::CallArg::Kwarg(n, e) => kws.push((n, e)),
-            ast::CallArg::PosSplat(_) | ast::CallArg::KwargSplat(_) => {
-                // `*args` / `**kwargs`: outside the model's fragment, the hoisting oracle still applies
-                out.push("XS".into());
+            _ => {
+                // `*args` / `**kwargs` (or a positional argument after a keyword): the general form
+                let kind = match tag {
+                    "call" => "function",
+                    "filt" => "filter",
+                    _ => "test",
+                };
+                dump_callx(kind, name, first, args, out);
                 return true;
             }
-            _ => return false,
         }
     }
     out.push(tag.into());
@@ -246,15 +288,15 @@ fn dump_expr(e: &ast::Expr, out: &mut Vec<String>) {
                 dump_expr(&op.expr, out);
             }
         }
-        ast::Expr::Call(c) => {
-            let ok = match &c.expr {
-                ast::Expr::Var(v) => dump_args("call", v.id, None, &c.args, out),
-                _ => false,
-            };
-            if !ok {
-                out.push("X".into());
+        ast::Expr::Call(c) => match &c.expr {
+            ast::Expr::Var(v) => {
+                dump_args("call", v.id, None, &c.args, out);
             }
-        }
+            // `self.name(..)` is a block call, not a method call
+            ast::Expr::GetAttr(g) if matches!(&g.expr, ast::Expr::Var(v) if v.id == "self") => out.push("X".into()),
+            ast::Expr::GetAttr(g) => dump_callx("method", g.name, Some(&g.expr), &c.args, out),
+            callee => dump_callx("object", "", Some(callee), &c.args, out),
+        },
         ast::Expr::Filter(f) => {
             let ok = f.expr.is_some() && dump_args("filt", f.name, f.expr.as_ref(), &f.args, out);
             if !ok {
@@ -294,6 +336,50 @@ fn dump_expr(e: &ast::Expr, out: &mut Vec<String>) {
     }
 }
 
+// ------------------------------------------------------------------------------------ statement shape
+/// `<Kind> <name|-> <nheads> <nbodies> (<len> stmt*)*`: the Rust variant, the declared name (block,
+/// macro), the number of head expressions compiled through `compile_expr` / `compile_call`, and the
+/// statement lists in field order
+fn dump_stmt(s: &ast::Stmt, out: &mut Vec<String>) {
+    fn node(kind: &str, name: &str, heads: usize, bodies: &[&[ast::Stmt]], out: &mut Vec<String>) {
+        out.push(kind.into());
+        out.push(if name.is_empty() { "-".into() } else { name.into() });
+        out.push(heads.to_string());
+        out.push(bodies.len().to_string());
+        for b in bodies {
+            out.push(b.len().to_string());
+            for s in b.iter() {
+                dump_stmt(s, out);
+            }
+        }
+    }
+    match s {
+        ast::Stmt::Template(t) => node("Template", "", 0, &[&t.children], out),
+        ast::Stmt::EmitExpr(_) => node("EmitExpr", "", 1, &[], out),
+        ast::Stmt::EmitRaw(_) => node("EmitRaw", "", 0, &[], out),
+        ast::Stmt::ForLoop(f) => node("ForLoop", "", 1 + f.filter_expr.is_some() as usize, &[&f.body, &f.else_body], out),
+        ast::Stmt::IfCond(c) => node("IfCond", "", 1, &[&c.true_body, &c.false_body], out),
+        ast::Stmt::WithBlock(w) => node("WithBlock", "", w.assignments.len(), &[&w.body], out),
+        ast::Stmt::Set(_) => node("Set", "", 1, &[], out),
+        ast::Stmt::SetBlock(b) => node("SetBlock", "", b.filter.is_some() as usize, &[&b.body], out),
+        ast::Stmt::AutoEscape(a) => node("AutoEscape", "", 1, &[&a.body], out),
+        ast::Stmt::FilterBlock(f) => node("FilterBlock", "", 1, &[&f.body], out),
+        ast::Stmt::Block(b) => node("Block", b.name, 0, &[&b.body], out),
+        ast::Stmt::Import(_) => node("Import", "", 1, &[], out),
+        ast::Stmt::FromImport(_) => node("FromImport", "", 1, &[], out),
+        ast::Stmt::Extends(_) => node("Extends", "", 1, &[], out),
+        ast::Stmt::Include(_) => node("Include", "", 1, &[], out),
+        ast::Stmt::Macro(m) => node("Macro", m.name, m.defaults.len(), &[&m.body], out),
+        // the call is a head; the generated `caller` macro carries the body
+        ast::Stmt::CallBlock(c) => node("CallBlock", "", 1 + c.macro_decl.defaults.len(), &[&c.macro_decl.body], out),
+        ast::Stmt::Continue(_) => node("Continue", "", 0, &[], out),
+        ast::Stmt::Break(_) => node("Break", "", 0, &[], out),
+        ast::Stmt::Do(_) => node("Do", "", 1, &[], out),
+        #[allow(unreachable_patterns)]
+        _ => node("X", "", 0, &[], out),
+    }
+}
+
 // ------------------------------------------------------------------------------------ environment
 fn kw_impl(args: Rest<Value>, kwargs: Kwargs) -> Value {
     let mut keys: Vec<String> = kwargs.args().map(|s| s.to_string()).collect();
@@ -303,6 +389,44 @@ fn kw_impl(args: Rest<Value>, kwargs: Kwargs) -> Value {
         .map(|k| Value::from(vec![Value::from(k.clone()), kwargs.get::<Value>(k).unwrap_or(Value::UNDEFINED)]))
         .collect();
     Value::from(vec![Value::from(args.0), Value::from(pairs)])
+}
+
+/// `ob.m(..)` (a method), `ob.f(..)` (an item called with method syntax), `ob["f"](..)` (an object call):
+/// all answer like `kw`
+#[derive(Debug)]
+struct Ob;
+
+impl minijinja::value::Object for Ob {
+    fn get_value(self: &std::sync::Arc<Self>, key: &Value) -> Option<Value> {
+        match key.as_str() {
+            Some("f") => Some(Value::from_function(kw_impl)),
+            _ => None,
+        }
+    }
+
+    fn call_method(
+        self: &std::sync::Arc<Self>,
+        state: &mut minijinja::State<'_, '_>,
+        method: &str,
+        args: &[Value],
+    ) -> Result<Value, Error> {
+        if method == "m" {
+            let (a, k): (Rest<Value>, Kwargs) = minijinja::value::from_args(args)?;
+            let _ = state;
+            Ok(kw_impl(a, k))
+        } else {
+            Err(Error::from(minijinja::ErrorKind::UnknownMethod))
+        }
+    }
+}
+
+/// `x is kwt(args…, name=value…)`: true iff the number of arguments plus the number of keyword names is even
+fn kwt_impl(_v: Value, args: Rest<Value>, kwargs: Kwargs) -> bool {
+    let n = kwargs.args().count();
+    for k in kwargs.args().map(|s| s.to_string()).collect::<Vec<_>>() {
+        let _ = kwargs.get::<Value>(&k);
+    }
+    (args.0.len() + n) % 2 == 0
 }
 
 fn mk_env(mode: &str, cfg: usize) -> Environment<'static> {
@@ -336,6 +460,8 @@ fn mk_env(mode: &str, cfg: usize) -> Environment<'static> {
     });
     env.add_function("kw", kw_impl);
     env.add_filter("kwf", kw_impl);
+    env.add_test("kwt", kwt_impl);
+    env.add_global("ob", Value::from_object(Ob));
     env.add_template("inc_a.txt", "[a:{{ v0 is defined }}]").unwrap();
     env.add_template("inc_b.txt", "[b]").unwrap();
     env.add_template("base.txt", "<{% block b %}base{% endblock %}|{% block c %}c{% endblock %}>").unwrap();
@@ -363,6 +489,8 @@ struct Case {
     spans: Vec<(usize, usize)>,
     /// `src` is a whole template (statement stream) instead of an expression
     tmpl: bool,
+    /// which generator produced the case (`-` | `sized:<form>:<n>:<class>`); not part of the key
+    tag: String,
 }
 
 fn fnv(s: &str) -> u64 {
@@ -378,6 +506,10 @@ const ENTRY_POINTS: [&str; 8] = [
 impl Case {
     /// environment configuration of this case (a function of the source, so replay needs no extra field)
     fn cfg(&self) -> usize {
+        // `cfg<n>` in the tag forces the configuration (the emission seeds run under every one)
+        if let Some(n) = self.tag.strip_prefix("cfg") {
+            return n.parse().unwrap_or(0);
+        }
         match fnv(&self.src) % 8 {
             0..=3 => 0,
             4 => 1,
@@ -398,56 +530,139 @@ impl Case {
         } else {
             self.spans.iter().map(|(a, b)| format!("{}-{}", a, b)).collect::<Vec<_>>().join(",")
         };
-        format!("{} {} {} {}", self.mode, hex(self.src.as_bytes()), spans, if self.tmpl { "t" } else { "e" })
+        format!("{} {} {} {} {}", self.mode, hex(self.src.as_bytes()), spans, if self.tmpl { "t" } else { "e" }, self.tag)
     }
 
-    fn variant(&self, mask: u64) -> String {
+    /// Spans may NEST: a container literal whose items are literals is a leaf (the whole container is
+    /// hoisted) and so is every item; spans are listed outer first, in source order.  A hoisted outer
+    /// span hides the spans inside it.
+    fn variant(&self, mask: u128) -> String {
         let mut out = String::new();
         let mut pos = 0;
         for (i, (a, b)) in self.spans.iter().enumerate() {
-            out.push_str(&self.src[pos..*a]);
-            if mask >> i & 1 == 1 {
-                out.push_str(&format!("v{}", i));
-            } else {
-                out.push_str(&self.src[*a..*b]);
+            if *a < pos {
+                continue; // inside a span that was replaced
             }
-            pos = *b;
+            if mask >> i & 1 == 1 {
+                out.push_str(&self.src[pos..*a]);
+                out.push_str(&format!("v{}", i));
+                pos = *b;
+            }
         }
         out.push_str(&self.src[pos..]);
         out
     }
+
+    /// for every span the innermost span that contains it
+    fn parents(&self) -> Vec<Option<usize>> {
+        let mut ps = vec![None; self.spans.len()];
+        for i in 0..self.spans.len() {
+            for j in (0..i).rev() {
+                if self.spans[j].0 <= self.spans[i].0 && self.spans[i].1 <= self.spans[j].1 {
+                    ps[i] = Some(j);
+                    break;
+                }
+            }
+        }
+        ps
+    }
 }
 
-/// all 2^k subsets up to `full` leaves, beyond that `cap` sampled ones (none, all, singletons,
-/// co-singletons, random)
-fn masks(k: usize, rng: &mut Rng, full: usize, cap: usize) -> Vec<u64> {
-    if k <= full {
-        return (0..1u64 << k).collect();
-    }
-    let all = if k >= 64 { !0u64 } else { (1u64 << k) - 1 };
-    let mut ms: Vec<u64> = vec![];
-    let push = |ms: &mut Vec<u64>, m: u64| {
+/// the hoisting subsets of a case: bit i = span i is replaced by `v<i>`
+struct Masks {
+    /// every scalar leaf hoisted, containers built at run time from variables
+    all_inner: u128,
+    /// everything hoisted as far out as possible (whole literal containers)
+    all_outer: u128,
+    list: Vec<u128>,
+}
+
+/// All subsets up to `full` leaves (modulo "an outer span hides its items"); beyond that `cap` sampled
+/// ones: none, all-outer, all-inner, every container alone, every top-level scalar alone, item singletons
+/// (first/last/spread when there are many), co-singletons, each container with one more leaf, random.
+fn masks(c: &Case, rng: &mut Rng, full: usize, cap: usize) -> Masks {
+    let k = c.spans.len().min(127);
+    let parents = c.parents();
+    let has_child: Vec<bool> = (0..k).map(|i| parents.iter().any(|p| *p == Some(i))).collect();
+    let normal = |m: u128| -> u128 {
+        let mut r = m;
+        for i in 0..k {
+            let mut p = parents[i];
+            while let Some(j) = p {
+                if m >> j & 1 == 1 {
+                    r &= !(1u128 << i);
+                }
+                p = parents[j];
+            }
+        }
+        r
+    };
+    let all: u128 = if k == 0 { 0 } else { (1u128 << k) - 1 };
+    let all_inner: u128 = (0..k).filter(|i| !has_child[*i]).fold(0, |m, i| m | 1 << i);
+    let all_outer = normal(all);
+    let mut ms: Vec<u128> = vec![];
+    let push = |ms: &mut Vec<u128>, m: u128| {
+        let m = normal(m & all);
         if !ms.contains(&m) {
             ms.push(m);
         }
     };
+    if k <= full {
+        for m in 0..1u128 << k {
+            push(&mut ms, m);
+        }
+        return Masks { all_inner, all_outer, list: ms };
+    }
     push(&mut ms, 0);
-    push(&mut ms, all);
-    for i in 0..k.min(64) {
+    push(&mut ms, all_outer);
+    push(&mut ms, all_inner);
+    let top: Vec<usize> = (0..k).filter(|i| has_child[*i] || parents[*i].is_none()).collect();
+    let items: Vec<usize> = (0..k).filter(|i| !(has_child[*i] || parents[*i].is_none())).collect();
+    for i in &top {
         push(&mut ms, 1 << i);
     }
-    for i in 0..k.min(64) {
+    // every top-level leaf together with all items hoisted one by one, and all items without it
+    for i in &top {
+        if !has_child[*i] {
+            push(&mut ms, all_inner & !(1 << i));
+            push(&mut ms, all_outer & !(1 << i));
+        }
+    }
+    let budget = cap.saturating_sub(ms.len()).max(8);
+    if items.len() <= budget / 2 {
+        for i in &items {
+            push(&mut ms, 1 << i);
+        }
+    } else {
+        let n = items.len();
+        let mut chosen: Vec<usize> = vec![0, 1, n / 2, n - 2, n - 1, 7.min(n - 1), 8.min(n - 1)];
+        while chosen.len() < budget / 2 {
+            chosen.push(rng.below(n as u64) as usize);
+        }
+        for j in chosen {
+            push(&mut ms, 1 << items[j]);
+        }
+    }
+    // a top-level scalar hoisted together with one item
+    for i in &top {
+        if !has_child[*i] && !items.is_empty() && ms.len() < cap {
+            push(&mut ms, 1 << i | 1 << items[rng.below(items.len() as u64) as usize]);
+        }
+    }
+    for i in 0..k {
         if ms.len() >= cap {
             break;
         }
-        push(&mut ms, all & !(1 << i));
+        push(&mut ms, all_inner & !(1 << i));
     }
     let mut tries = 0;
     while ms.len() < cap && tries < 4 * cap {
-        push(&mut ms, rng.next() & all);
+        let r = (rng.next() as u128) << 64 | rng.next() as u128;
+        // random subsets of the scalar leaves; now and then with whole containers
+        push(&mut ms, if tries % 3 == 0 { r } else { r & all_inner });
         tries += 1;
     }
-    ms
+    Masks { all_inner, all_outer, list: ms }
 }
 
 /// spans of the scalar literals inside a container literal of the generator's zoo
@@ -460,7 +675,7 @@ fn scalar_spans(text: &str) -> Vec<(usize, usize)> {
         if c == b'"' || c == b'\'' {
             let mut j = i + 1;
             while j < b.len() && b[j] != c {
-                j += 1;
+                j += if b[j] == b'\\' { 2 } else { 1 };
             }
             out.push((i, j + 1));
             i = j + 1;
@@ -571,7 +786,10 @@ fn render_via(env: &mut Environment<'static>, ep: usize, c: &Case, expr: &str, s
     }
 }
 
-fn run_case(c: &Case, rng: &mut Rng) -> String {
+fn run_case(c: &Case, _stream: &mut Rng) -> String {
+    // the sampled hoisting subsets are a function of the case (and the seed), so that a replay meets the same ones
+    let mut case_rng = Rng::new(fnv(&c.src) ^ fnv(&format!("c04-masks-{}", seed_from_env())));
+    let rng = &mut case_rng;
     let mut env = mk_env(&c.mode, c.cfg());
     let k = c.spans.len();
     // the values of the literal leaves, as the real front end builds them
@@ -587,8 +805,10 @@ fn run_case(c: &Case, rng: &mut Rng) -> String {
     }
     let ctx = Value::from(ctx);
     // a template variant costs ten renderings (consumers, block table): fewer subsets there
-    let ms = if c.tmpl { masks(k, rng, 4, 20) } else { masks(k, rng, 6, 64) };
-    let all = if k == 0 { 0 } else if k >= 64 { !0u64 } else { (1u64 << k) - 1 };
+    let sized = c.tag.starts_with("sized");
+    let mk = if c.tmpl { masks(c, rng, 4, if sized { 28 } else { 20 }) } else { masks(c, rng, 6, if sized { 80 } else { 64 }) };
+    let ms = &mk.list;
+    let all = mk.all_inner;
     let mut load = "ok".to_string();
     let mut lit = String::new();
     let mut hoist = String::new();
@@ -623,13 +843,31 @@ fn run_case(c: &Case, rng: &mut Rng) -> String {
         if *m == all {
             hoist = o.clone();
         }
+
         if o != lit {
             diffs.push(format!("{:x}@{}={}", m, ENTRY_POINTS[ep], o));
         }
     }
     if c.tmpl {
+        // the real parser's statement tree of the all-literal source and the block table the real code
+        // generator registers for it
+        let srclit = c.variant(0);
+        let shape = guarded(|| {
+            let ast = minijinja::machinery::parse(&srclit, "t.txt", Default::default(), Default::default()).ok()?;
+            let mut toks = vec![];
+            dump_stmt(&ast, &mut toks);
+            env.add_template_owned("t.txt", srclit.clone()).ok()?;
+            let t = env.get_template("t.txt").ok()?;
+            let mut blocks: Vec<String> = get_compiled_template(&t).blocks.keys().map(|k| k.to_string()).collect();
+            blocks.sort();
+            Some(format!("T|{}|{}", toks.join(" "), blocks.join(",")))
+        });
+        let shape = match shape {
+            Ok(Some(s)) => s,
+            _ => "-".to_string(),
+        };
         return format!(
-            "{}\t-\t{}\t{}\t{}\t{}\t{}\t{}\t-\t-\t-\t-\t{}",
+            "{}\t-\t{}\t{}\t{}\t{}\t{}\t{}\t-\t-\t-\t-\t{}\t{}\t{}",
             c.key(),
             load,
             k,
@@ -637,7 +875,9 @@ fn run_case(c: &Case, rng: &mut Rng) -> String {
             lit,
             hoist,
             if diffs.is_empty() { "-".to_string() } else { diffs.join(";") },
-            CFGS[c.cfg()]
+            CFGS[c.cfg()],
+            c.tag,
+            shape
         );
     }
     // the real front end on the all-literal source
@@ -664,6 +904,45 @@ fn run_case(c: &Case, rng: &mut Rng) -> String {
         }
         _ => asttok.push("X".into()),
     }
+    // the constants in the real instruction stream of a few variants (all-literal, every scalar hoisted,
+    // whole containers hoisted, the first few of the others), next to the variant's real AST
+    let mut picked: Vec<u128> = vec![0, mk.all_inner, mk.all_outer];
+    for m in ms.iter() {
+        if picked.len() >= 8 {
+            break;
+        }
+        if !picked.contains(m) {
+            picked.push(*m);
+        }
+    }
+    picked.dedup();
+    let mut codes = vec![];
+    for m in picked {
+        let vsrc = c.variant(m);
+        let r = guarded(|| {
+            let ast = parse_expr(&vsrc).ok()?;
+            let mut toks = vec![];
+            dump_expr(&ast, &mut toks);
+            if toks.iter().any(|t| t == "X" || t == "XS") {
+                return None;
+            }
+            let mut g = CodeGenerator::new("<expression>", &vsrc);
+            g.compile_expr(&ast);
+            let instrs = g.finish().0;
+            let mut consts = vec![];
+            let mut i = 0;
+            while let Some(instr) = instrs.get(i) {
+                if let Instruction::LoadConst(v) = instr {
+                    consts.push(value_str(v));
+                }
+                i += 1;
+            }
+            Some(format!("{:x}|{}|{}", m, toks.join(" "), consts.join(",")))
+        });
+        if let Ok(Some(e)) = r {
+            codes.push(e);
+        }
+    }
     let vallit = outcome(
         guarded(|| env.compile_expression(&srclit).and_then(|e| e.eval(())).map(|v| value_str(&v))),
         |s| format!("ok {}", s),
@@ -674,7 +953,7 @@ fn run_case(c: &Case, rng: &mut Rng) -> String {
         |s| format!("ok {}", s),
     );
     format!(
-        "{}\t{}\t{}\t{}\t{}\t{}\t{}\t{}\t{}\t{}\t{}\t{}\t{}",
+        "{}\t{}\t{}\t{}\t{}\t{}\t{}\t{}\t{}\t{}\t{}\t{}\t{}\t{}\t{}",
         c.key(),
         asttok.join(" "),
         load,
@@ -687,7 +966,9 @@ fn run_case(c: &Case, rng: &mut Rng) -> String {
         code,
         vallit,
         valhoist,
-        CFGS[c.cfg()]
+        CFGS[c.cfg()],
+        c.tag,
+        if codes.is_empty() { "-".to_string() } else { codes.join(";") }
     )
 }
 
@@ -695,6 +976,8 @@ fn run_case(c: &Case, rng: &mut Rng) -> String {
 #[derive(Clone)]
 enum G {
     Lit(String),
+    /// literal text that is not a leaf of its own (only hoisted with the container around it)
+    Raw(String),
     Var(&'static str),
     List(Vec<G>),
     Tuple(Vec<G>),
@@ -706,6 +989,10 @@ enum G {
     Call(Vec<G>, Vec<(&'static str, G)>),
     /// `kw(pos…, *star, name=value…, **dstar)`
     CallSplat(Vec<G>, Box<G>, Vec<(&'static str, G)>, Option<Box<G>>),
+    /// the general call form: callee (0 `kw(` function, 1 `ob.m(` method, 2 `ob.f(` item called as a method,
+    /// 3 `ob["f"](` object, 4 `[kw][0](` object, 5 `subject|kwf(` filter, 6 `subject is kwt(` test, 7 `{"f": kw}.f(`),
+    /// subject of a filter/test, arguments in any mix
+    CallX(u8, Option<Box<G>>, Vec<GA>),
     /// `subject|name(args, kwargs)`
     Filt(&'static str, Box<G>, Vec<G>, Vec<(&'static str, G)>),
     /// `subject is [not] name(args)`
@@ -714,6 +1001,14 @@ enum G {
     GetAttr(Box<G>, &'static str),
     Slice(Box<G>, Option<Box<G>>, Option<Box<G>>, Option<Box<G>>),
     If(Box<G>, Box<G>, Option<Box<G>>),
+}
+
+#[derive(Clone)]
+enum GA {
+    Pos(G),
+    PosSplat(G),
+    Kw(&'static str, G),
+    KwSplat(G),
 }
 
 const INTS: [&str; 27] = [
@@ -771,7 +1066,9 @@ fn numish(g: &G) -> bool {
     match g {
         G::Lit(s) => !(s.starts_with('"') || s.starts_with('\'') || s.starts_with('[') || s.starts_with('(') || s.starts_with('{')),
         G::Var(_) => true,
+        G::Raw(_) => false,
         G::List(_) | G::Tuple(_) | G::Map(_) | G::Call(..) | G::CallSplat(..) | G::GetItem(..) | G::GetAttr(..) | G::Slice(..) => false,
+        G::CallX(callee, ..) => *callee == 6,
         G::Filt(name, a, args, _) => match *name {
             "length" | "abs" | "int" | "round" => true,
             "default" => numish(a) && args.iter().all(numish),
@@ -851,6 +1148,41 @@ fn gen_dup_map(rng: &mut Rng, d: u32) -> G {
         pairs.push((key, v));
     }
     G::Map(pairs)
+}
+
+/// a call of any callee kind with any mix of positional, `*splat`, keyword and `**splat` arguments (the
+/// parser wants positional ones before keyword ones; a `*splat` may follow keywords)
+fn gen_callx(rng: &mut Rng, d: u32) -> G {
+    let callee = *rng.pick(&[0u8, 0, 1, 1, 2, 3, 4, 5, 5, 6, 7]);
+    let subject = if callee == 5 || callee == 6 { Some(Box::new(gen(rng, d.min(1)))) } else { None };
+    let mut args = vec![];
+    for _ in 0..rng.below(3) {
+        args.push(GA::Pos(if rng.chance(2, 3) { gen_lit(rng) } else { gen(rng, d.min(1)) }));
+    }
+    let splat = |rng: &mut Rng| {
+        if rng.chance(2, 3) { G::List((0..rng.below(3)).map(|_| gen_lit(rng)).collect()) } else { gen_container(rng, d.min(1)) }
+    };
+    if rng.chance(1, 2) {
+        args.push(GA::PosSplat(splat(rng)));
+        if rng.chance(1, 4) {
+            args.push(GA::Pos(gen_lit(rng)));
+        }
+        if rng.chance(1, 5) {
+            args.push(GA::PosSplat(splat(rng)));
+        }
+    }
+    for _ in 0..rng.below(3) {
+        // mostly literal values (the static path), now and then a computed one
+        args.push(GA::Kw(*rng.pick(&KWNAMES), if rng.chance(3, 4) { gen_lit(rng) } else { gen(rng, d.min(1)) }));
+    }
+    if rng.chance(1, 3) {
+        let m = G::Map((0..rng.below(3)).map(|_| (G::Lit(rng.pick(&["\"ka\"", "\"kb\"", "\"kz\""]).to_string()), gen_lit(rng))).collect());
+        args.push(GA::KwSplat(if rng.chance(4, 5) { m } else { gen_lit(rng) }));
+        if rng.chance(1, 3) {
+            args.push(GA::Kw(*rng.pick(&KWNAMES), gen_lit(rng)));
+        }
+    }
+    G::CallX(callee, subject, args)
 }
 
 fn gen(rng: &mut Rng, depth: u32) -> G {
@@ -954,6 +1286,9 @@ fn gen_bound(rng: &mut Rng, d: u32) -> Option<Box<G>> {
 /// productions that are never folded but sit between constants: item/attribute access, slices,
 /// conditional expressions, filters and tests
 fn gen_unfolded(rng: &mut Rng, d: u32) -> G {
+    if rng.chance(1, 14) {
+        return gen_callx(rng, d);
+    }
     if rng.chance(1, 70) {
         // splat arguments switch `compile_call_args` to its list/merge paths (and static keyword arguments off)
         let pos = (0..rng.below(2)).map(|_| gen_lit(rng)).collect();
@@ -1016,6 +1351,35 @@ fn emit_kws(first: bool, kws: &[(&'static str, G)], out: &mut String, spans: &mu
     }
 }
 
+/// a literal or a negated number literal whose negation cannot fail: an item of a literal container
+fn plain_item(g: &G) -> bool {
+    match g {
+        G::Lit(_) | G::Raw(_) => true,
+        G::Neg(a) => match &**a {
+            G::Lit(s) => s.as_bytes()[0].is_ascii_digit() && (s.len() <= 18 || s.contains('.')),
+            _ => false,
+        },
+        _ => false,
+    }
+}
+
+/// A container literal all of whose items are literals is itself a literal sub-expression: it gets a
+/// span of its own around the spans of its items (hoisting the whole container into one variable).
+fn open_outer(all_plain: bool, out: &String, spans: &mut Vec<(usize, usize)>) -> Option<usize> {
+    if all_plain {
+        spans.push((out.len(), 0));
+        Some(spans.len() - 1)
+    } else {
+        None
+    }
+}
+
+fn close_outer(outer: Option<usize>, out: &String, spans: &mut Vec<(usize, usize)>) {
+    if let Some(i) = outer {
+        spans[i].1 = out.len();
+    }
+}
+
 fn emit(g: &G, out: &mut String, spans: &mut Vec<(usize, usize)>) {
     match g {
         G::Lit(s) => {
@@ -1024,20 +1388,26 @@ fn emit(g: &G, out: &mut String, spans: &mut Vec<(usize, usize)>) {
             spans.push((a, out.len()));
         }
         G::Var(n) => out.push_str(n),
+        G::Raw(t) => out.push_str(t),
         G::List(xs) => {
+            let outer = open_outer(xs.iter().all(plain_item), out, spans);
             out.push('[');
             emit_list(xs, out, spans);
             out.push(']');
+            close_outer(outer, out, spans);
         }
         G::Tuple(xs) => {
+            let outer = open_outer(xs.iter().all(plain_item), out, spans);
             out.push('(');
             emit_list(xs, out, spans);
             if xs.len() == 1 {
                 out.push(',');
             }
             out.push(')');
+            close_outer(outer, out, spans);
         }
         G::Map(kvs) => {
+            let outer = open_outer(kvs.iter().all(|(k, v)| plain_item(k) && plain_item(v)), out, spans);
             out.push('{');
             for (i, (k, v)) in kvs.iter().enumerate() {
                 if i > 0 {
@@ -1048,6 +1418,7 @@ fn emit(g: &G, out: &mut String, spans: &mut Vec<(usize, usize)>) {
                 emit(v, out, spans);
             }
             out.push('}');
+            close_outer(outer, out, spans);
         }
         G::Not(a) => {
             out.push_str("(not ");
@@ -1056,7 +1427,8 @@ fn emit(g: &G, out: &mut String, spans: &mut Vec<(usize, usize)>) {
         }
         G::Neg(a) => {
             // `-kw(..)` parses as `(-kw)(..)`, `-x[0]` as `(-x)[0]`: keep the postfix form an operand of the negation
-            let wrap = matches!(**a, G::Call(..) | G::CallSplat(..) | G::GetItem(..) | G::GetAttr(..) | G::Slice(..));
+            let wrap = matches!(**a, G::Call(..) | G::CallSplat(..) | G::GetItem(..) | G::GetAttr(..) | G::Slice(..))
+                || matches!(**a, G::CallX(c, ..) if c < 5 || c == 7);
             out.push_str(if wrap { "(-(" } else { "(-" });
             emit(a, out, spans);
             out.push_str(if wrap { "))" } else { ")" });
@@ -1106,6 +1478,50 @@ fn emit(g: &G, out: &mut String, spans: &mut Vec<(usize, usize)>) {
                 emit(d, out, spans);
             }
             out.push(')');
+        }
+        G::CallX(callee, subject, args) => {
+            let close = match callee {
+                0 => { out.push_str("kw("); ")" }
+                1 => { out.push_str("ob.m("); ")" }
+                2 => { out.push_str("ob.f("); ")" }
+                3 => { out.push_str("ob[\"f\"]("); ")" }
+                4 => { out.push_str("[kw][0]("); ")" }
+                7 => { out.push_str("{\"f\": kw}.f("); ")" }
+                5 => {
+                    out.push('(');
+                    emit(subject.as_ref().unwrap(), out, spans);
+                    out.push_str("|kwf(");
+                    "))"
+                }
+                _ => {
+                    out.push('(');
+                    emit(subject.as_ref().unwrap(), out, spans);
+                    out.push_str(" is kwt(");
+                    "))"
+                }
+            };
+            for (i, a) in args.iter().enumerate() {
+                if i > 0 {
+                    out.push_str(", ");
+                }
+                match a {
+                    GA::Pos(g) => emit(g, out, spans),
+                    GA::PosSplat(g) => {
+                        out.push('*');
+                        emit(g, out, spans);
+                    }
+                    GA::Kw(n, g) => {
+                        out.push_str(n);
+                        out.push('=');
+                        emit(g, out, spans);
+                    }
+                    GA::KwSplat(g) => {
+                        out.push_str("**");
+                        emit(g, out, spans);
+                    }
+                }
+            }
+            out.push_str(close);
         }
         G::Filt(name, a, args, kws) => {
             out.push('(');
@@ -1260,6 +1676,16 @@ fn gen_stmt(rng: &mut Rng) -> (String, Vec<(usize, usize)>) {
         29 => {
             // a macro that does not use `caller` must reject a call block, with literal and with variable keyword values alike
             t!("{% macro plain(a=1) %}({{ a }}){% endmacro %}{% call plain(a="); e!(gen_lit(rng)); t!(") %}body{% endcall %}");
+        }
+        30 if rng.chance(1, 2) => {
+            // a call block on a method / object callee, with splats: the caller joins the keyword arguments at run time
+            t!("{% call "); t!(*rng.pick(&["ob.m(", "ob.f(", "ob[\"f\"](", "kw("]));
+            if rng.chance(1, 2) { e!(gen_lit(rng)); t!(", "); }
+            if rng.chance(1, 3) { t!("*"); e!(G::List(vec![gen_lit(rng)])); t!(", "); }
+            t!("ka="); e!(gen_lit(rng));
+            if rng.chance(1, 2) { t!(", kb="); e!(gen_lit(rng)); }
+            if rng.chance(1, 4) { t!(", **"); e!(G::Map(vec![(G::Lit("\"kz\"".into()), gen_lit(rng))])); }
+            t!(") %}body{% endcall %}");
         }
         30 => { t!("{% call kw(ka="); e!(gen_lit(rng)); t!(", kb="); e!(gen_lit(rng)); t!(") %}body{% endcall %}|{% do kw(ka="); e!(gen_lit(rng)); t!(") %}done"); }
         31 => { t!("{% filter kwf(ka="); e!(gen_lit(rng)); t!(") %}body{{ "); e!(gen_lit(rng)); t!(" }}{% endfilter %}"); }
@@ -1419,6 +1845,235 @@ fn gen_effect_stmt(rng: &mut Rng) -> (String, Vec<(usize, usize)>) {
     (o, sp)
 }
 
+// ------------------------------------------------------------------------------------ size classes
+/// container sizes: around every power of two up to 64 (thresholds of "optimisations" hide there)
+const SIZES: [usize; 12] = [0, 1, 2, 7, 8, 9, 16, 17, 32, 33, 64, 65];
+
+/// Classes of values that are equal under `==` (or adjacent) but differ in kind, width or representation,
+/// so that `==`, `Ord`, `Hash` and the rendered text tell the members apart: a change of the comparison
+/// relation between the folded and the run-time path shows on them.  `-x` is a negated literal,
+/// `(x|safe)` a safe string (no literal denotes one).
+const CLASSES: [(&str, &[&str]); 12] = [
+    ("one", &["true", "1", "1.0"]),
+    ("zero", &["false", "0", "0.0", "-0.0"]),
+    ("two", &["2", "2.0", "2"]),
+    ("neg1", &["-1", "-1.0", "-1"]),
+    ("i64max", &["9223372036854775807", "9223372036854775807.0", "9223372036854775806"]),
+    ("2p63", &["9223372036854775808", "9223372036854775808.0", "9223372036854775807"]),
+    ("2p64", &["18446744073709551616", "18446744073709551616.0", "18446744073709551615"]),
+    ("2p53", &["9007199254740993", "9007199254740992.0", "9007199254740992"]),
+    ("str", &["\"a\"", "'a'", "(\"a\"|safe)", "\"A\""]),
+    ("digit", &["\"1\"", "1", "'1'", "(\"1\"|safe)"]),
+    ("none", &["none", "false", "0", "\"\""]),
+    ("seq", &["[1]", "(1,)", "[1.0]", "[true]"]),
+];
+
+fn class_item(text: &str) -> G {
+    if let Some(rest) = text.strip_prefix('-') {
+        G::Neg(Box::new(G::Lit(rest.to_string())))
+    } else if let Some(inner) = text.strip_prefix('(').and_then(|t| t.strip_suffix("|safe)")) {
+        G::Filt("safe", Box::new(G::Lit(inner.to_string())), vec![], vec![])
+    } else {
+        G::Lit(text.to_string())
+    }
+}
+
+/// pairwise different values that belong to no class
+fn filler(i: usize, style: u64) -> G {
+    G::Lit(match style {
+        0 => format!("{}", 10 + i),
+        1 => format!("\"s{}\"", i),
+        _ => match i % 4 {
+            0 => format!("{}", 10 + i),
+            1 => format!("\"s{}\"", i),
+            2 => format!("{}.5", 10 + i),
+            _ => format!("[{}]", 10 + i),
+        },
+    })
+}
+
+struct SizedC {
+    n: usize,
+    class: usize,
+    /// items of the container and of its twin (class members swapped for other members: equal under `==`)
+    items: Vec<G>,
+    twin: Vec<G>,
+    /// list or tuple
+    tuple: bool,
+    probe: G,
+    probe2: G,
+}
+
+fn gen_sized(rng: &mut Rng, n: usize) -> SizedC {
+    // half of the cases from the two classes in which `==`, `Ord` and `Hash` are known to disagree
+    let class = if rng.chance(1, 2) { rng.below(2) as usize } else { rng.below(CLASSES.len() as u64) as usize };
+    let members = CLASSES[class].1;
+    let style = rng.below(3);
+    let mut items: Vec<G> = (0..n).map(|i| filler(i, style)).collect();
+    let mut twin = items.clone();
+    let mut partner: Option<G> = None;
+    if n > 0 {
+        // 0..3 class members at the ends, in the middle, around index 8, anywhere
+        let cnt = [1, 1, 1, 2, 2, 3, 0][rng.below(7) as usize];
+        for _ in 0..cnt {
+            let cand = [0, n - 1, n / 2, 7.min(n - 1), 8.min(n - 1), rng.below(n as u64) as usize, rng.below(n as u64) as usize];
+            let at = *rng.pick(&cand);
+            let a = rng.below(members.len() as u64) as usize;
+            let b = (a + 1 + rng.below(members.len() as u64 - 1) as usize) % members.len();
+            items[at] = class_item(members[a]);
+            twin[at] = class_item(members[b]);
+            partner = Some(class_item(members[b]));
+        }
+    }
+    // mostly ANOTHER member of the class than the one in the container (equal, of another kind)
+    let probe = match (rng.below(10), partner) {
+        (0, _) => G::Lit("5".into()),
+        (1, _) if n > 0 => items[rng.below(n as u64) as usize].clone(),
+        (2..=6, Some(p)) => p,
+        _ => class_item(*rng.pick(members)),
+    };
+    let probe2 = class_item(*rng.pick(members));
+    SizedC { n, class, items, twin, tuple: rng.chance(1, 3), probe, probe2 }
+}
+
+/// Operator forms over a sized container.  `$A`/`$P` probes (class members), `$C` the container, `$D` its
+/// twin, `$M`/`$N` a map with the items as keys and its twin, `$S` a string of n characters, `$K` a small
+/// count, `$I`/`$J` indices around the size, `$Z` a step, `$B` a batch size, `$G` a glue string, `$1`/`$2`
+/// the names of a test and a filter as string literals.
+const SIZED_EXPR_FORMS: &[&str] = &[
+    "$A in $C", "$A not in $C", "$C == $D", "$C != $D", "$C < $D", "$C <= $D", "$C + $D", "$C * $K", "$K * $C",
+    "$C[$I]", "$C[$A]", "$C[$I:$J]", "$C[::$Z]", "$C[$I:]", "$C[:$J:$Z]",
+    "$C|length", "$C|first", "$C|last", "$C|join($G)", "$C|sort|join($G)", "$C|unique|list", "$C|batch($B)|list", "$C|slice($B)|list",
+    "$C|sum", "$C|min", "$C|max", "$C|reverse|list", "$C|list", "$A|default($C)", "$C|map($2)|list", "$C|select($1, $A)|list",
+    "$C|reject(\"in\", $D)|list", "$C|tojson", "$C|string", "$C|kwf(ka=$A)",
+    "$A is in($C)", "$A is not in($C)", "$C is eq($D)", "$C is sequence",
+    "$A in $C in [$D]", "$A in $C == $T", "$A < $K in $C", "$A not in $C not in [$D]", "$A == $P in $C", "$C == $D == $C",
+    "kw($C)", "kw(*$C)", "kw(ka=$C)", "kw($A, *$C, ka=$A)", "kw(*$C, **$M)",
+    // n-ary syntax: n positional / keyword arguments, chains and operator sequences of n operands
+    "kw($*)", "kw($=)", "ob.m($=)", "ob[\"f\"]($*, ka=$A)", "$A|kwf($=)", "kw($*, $=)", "$<", "$&", "$|", "$~", "[$*][$I]", "{$:}",
+    "$C in [$D]", "$C not in [$A, $D]", "[$C] == [$D]", "$C is in([$D])", "$S in [$A, $S]",
+    "ob.m(*$C, ka=$A)", "ob[\"f\"]($A, **$M)", "$A|kwf(*$C)", "$A is kwt(*$C)", "ob.f(ka=$C, kb=$A)",
+    "$A in $C and $A in $D", "($A in $C) if ($A in $D) else $C", "$A in ($C + $D)", "$A in $C * $K", "$A in $C[$I:]", "$A in $C|list",
+    "[$C, $D]", "{$A: $C}", "{\"k\": $C}[\"k\"]", "$C ~ $A", "not $C", "$C and $A", "$C or $A", "[$A, $P] == $C[:2]",
+    "$A in $M", "$A not in $M", "$M[$A]", "$M == $N", "$M != $N", "$M|length", "$M|items|list", "$M|dictsort", "$M|list", "kw(**$M)",
+    "$A is in($M)", "$M|first", "$A in $M|list", "$M|tojson", "$M ~ \"\"", "{$A: $K, $P: $B}",
+    "$A in $S", "$A not in $S", "$S[$I]", "$S[$I:$J]", "$S * $K", "$S|length", "$S|list|length", "$S ~ $A", "$S == $S", "$S|upper", "$S|first",
+];
+
+const SIZED_STMT_FORMS: &[&str] = &[
+    "{% for x in $C %}{{ x }},{% else %}e{% endfor %}",
+    "{% for x in $C if x in $D %}{{ loop.index }}{% endfor %}",
+    "{% if $A in $C %}y{% else %}n{% endif %}",
+    "{% set x = $C %}{{ $A in x }}|{{ x|length }}",
+    "{% for x in $C %}{{ x == $A }}{% endfor %}",
+    "{% with c = $C %}{{ $A in c }}{% endwith %}",
+    "{% macro m(a=$C) %}{{ $A in a }}{% endmacro %}{{ m() }}",
+    "{% set a, b = $C %}{{ a }}",
+    "{% for k, v in $M|items %}{{ k }}={{ v }};{% endfor %}",
+    "{% if $A in $C %}{% block b %}B{% endblock %}{% endif %}",
+    "{% for x in $C %}{% if x is in($D) %}{{ x }}{% endif %}{% endfor %}",
+    "{% for x in $M %}{{ x }}{% endfor %}|{% if $A in $M %}{% set g = $M[$A] %}{% endif %}{{ g }}",
+    // what unrolling a loop over a literal, or propagating a literal `set`, would have to preserve
+    "{% for x in $C %}{{ loop.index }}/{{ loop.length }}:{{ loop.first }}{{ loop.last }}{{ loop.revindex0 }}[{{ loop.previtem|default(\"-\") }}|{{ loop.nextitem|default(\"-\") }}]{{ loop.cycle($A, $P) }}{% if loop.changed(x) %}c{% endif %};{% endfor %}",
+    "{% set y = $A %}{% for x in $C %}{% set y = x %}{% if x == $A %}{% break %}{% endif %}{% if x == $P %}{% continue %}{% endif %}[{{ x }}]{% endfor %}{{ y }}|{{ x is defined }}",
+    "{% for x in $C recursive %}{{ x }}{% if loop.depth < 2 and loop.first %}<{{ loop([$A, $P]) }}>{% endif %}{% endfor %}",
+    "{% set x = $A %}{% set x = x ~ $P %}{{ x }}{% if x %}{% set x = $C %}{% endif %}{{ x }}",
+    "{% set x = $A %}{% macro m() %}{{ x }}{% endmacro %}{% set x = $P %}{{ m() }}|{{ x }}",
+    "{% with x = $A %}{% set x = $P %}{{ x }}{% endwith %}{{ x is defined }}",
+    "{% set ns = namespace(v=$A) %}{% for x in $C %}{% set ns.v = x %}{% endfor %}{{ ns.v }}",
+    "{% for x in $C %}{% for y in $D %}{{ loop.index }}{% endfor %}{{ loop.index }}{% else %}none{% endfor %}",
+    "{% if $A in $C %}{% set g = $A %}{% else %}{% set g = $P %}{% endif %}{{ g }}",
+    "{% for a, b in [$C, $D] %}{{ a }}{{ b }}{% endfor %}",
+    "{{ $A }}|{{ $C }}|{{ $M }}|{{ \"<&>\" ~ $A }}|{% autoescape true %}{{ $C }}{{ \"<\" }}{% endautoescape %}",
+    "{% filter upper %}{{ $A }}{% for x in $C %}{{ x }}{% endfor %}{% endfilter %}",
+    "{% for x in $C %}{% if loop.index > $K %}{% break %}{% endif %}{% block b %}B{{ x|default(\"-\") }}{% endblock %}{% endfor %}|{{ self.b() }}",
+    "{% for x in $C %}{% macro m(a=x) %}{{ a }}{% endmacro %}{% endfor %}{{ m is defined }}",
+];
+
+/// a literal emitted on its own: escaping and the formatter see it like a variable's value (run under every
+/// environment configuration)
+const EMIT_SEEDS: &[&str] = &[
+    "{{ `none` }}", "{{ `\"<b>&\"` }}", "{{ `true` }}|{{ `1.0` }}|{{ `0.1` }}", "{{ `[1, \"<\", none]` }}", "{{ [`none`, `\"<\"`] }}", "{{ `{\"<\": none}` }}",
+    "{{ `\"<\"` ~ `\">\"` }}", "{{ `\"a\"` if `true` else `none` }}|{{ `none` if `1` }}", "{{ `\"<i>\"`|safe }}{{ `\"<i>\"`|upper }}", "{{ -`1` }}|{{ `1` + `1` }}|{{ `\"<\"` * `2` }}",
+    "{% autoescape `false` %}{{ `\"<\"` }}{% endautoescape %}{% autoescape `\"html\"` %}{{ `\"<\"` }}{{ `none` }}{% endautoescape %}",
+    "{% set x = `\"<\"` %}{{ x }}{{ `none` }}{% set y = `none` %}{{ y }}", "{% for x in [`\"<\"`, `none`] %}{{ x }}{% endfor %}", "{{ `\"\"` }}|{{ `()` }}|{{ `1e100` }}",
+];
+
+
+fn emit_form(rng: &mut Rng, form: &str, z: &SizedC, out: &mut String, spans: &mut Vec<(usize, usize)>) {
+    let n = z.n;
+    let seq = |items: &Vec<G>| if z.tuple { G::Tuple(items.clone()) } else { G::List(items.clone()) };
+    // (the values of big maps are no leaves of their own: a case has at most 127 leaves)
+    let map = |items: &Vec<G>| {
+        G::Map(items.iter().enumerate().map(|(i, k)| (k.clone(), if n > 40 && i % 8 != 0 { G::Raw(format!("{}", 100 + i)) } else { G::Lit(format!("{}", 100 + i)) })).collect())
+    };
+    let idx = |rng: &mut Rng| {
+        let cand = [0, 1, n.saturating_sub(1), n, n / 2, 7, 8, n + 1];
+        let v = G::Lit(format!("{}", rng.pick(&cand)));
+        if rng.chance(1, 4) { G::Neg(Box::new(v)) } else { v }
+    };
+    let mut chars = form.chars().peekable();
+    while let Some(ch) = chars.next() {
+        if ch != '$' {
+            out.push(ch);
+            continue;
+        }
+        let g = match chars.next().unwrap() {
+            'A' => z.probe.clone(),
+            'P' => z.probe2.clone(),
+            'C' => seq(&z.items),
+            'D' => seq(&z.twin),
+            'M' => map(&z.items),
+            'N' => map(&z.twin),
+            'S' => G::Lit(format!("\"{}\"", (0..n).map(|i| (b'a' + (i % 26) as u8) as char).collect::<String>())),
+            'K' => G::Lit(rng.pick(&SMALL).to_string()),
+            'I' | 'J' => idx(rng),
+            'Z' => {
+                let v = G::Lit(rng.pick(&["1", "2", "3", "8"]).to_string());
+                if rng.chance(1, 3) { G::Neg(Box::new(v)) } else { v }
+            }
+            'B' => G::Lit(rng.pick(&["1", "2", "7", "8", "9"]).to_string()),
+            'G' => G::Lit(rng.pick(&["\",\"", "\"\"", "\"-\""]).to_string()),
+            'T' => G::Lit(rng.pick(&["true", "1", "false"]).to_string()),
+            '1' => G::Lit(rng.pick(&["\"eq\"", "\"ne\"", "\"ge\""]).to_string()),
+            '2' => G::Lit(rng.pick(&["\"string\"", "\"abs\"", "\"bool\""]).to_string()),
+            sep @ ('*' | '=' | '<' | '&' | '|' | '~' | ':') => {
+                // the items themselves as an n-ary piece of syntax
+                if n == 0 && !matches!(sep, '*' | '=' | ':') {
+                    emit(&z.probe, out, spans);
+                }
+                for (i, item) in z.items.iter().enumerate() {
+                    if i > 0 {
+                        out.push_str(match sep {
+                            '<' => if i % 2 == 0 { " <= " } else { " == " },
+                            '&' => " and ",
+                            '|' => " or ",
+                            '~' => " ~ ",
+                            _ => ", ",
+                        });
+                    }
+                    if sep == '=' {
+                        out.push_str(&format!("k{}=", i));
+                    }
+                    emit(item, out, spans);
+                    if sep == ':' {
+                        out.push_str(": ");
+                        emit(&z.twin[i], out, spans);
+                    }
+                }
+                if n == 0 && chars.peek() == Some(&',') {
+                    // an empty argument list takes its separator with it
+                    chars.next();
+                    chars.next();
+                }
+                continue;
+            }
+            c => panic!("bad placeholder ${}", c),
+        };
+        emit(&g, out, spans);
+    }
+}
+
 /// hand-written statement seeds (backticks delimit the literal leaves)
 const STMT_SEEDS: &[&str] = &[
     "{% if `0` and `1` %}yes{% else %}no{% endif %}", "{% if `3` < `2` < `5` %}yes{% else %}no{% endif %}",
@@ -1444,6 +2099,9 @@ const STMT_SEEDS: &[&str] = &[
     "{% macro plain(a=1) %}({{ a }}){% endmacro %}{% call plain(a=`2`) %}body{% endcall %}", "{% macro plain(a=1) %}({{ a }}){% endmacro %}{% call plain(`2`) %}body{% endcall %}",
     "{% call kw(ka=`1`) %}body{% endcall %}", "{% call kw(ka=`1`, caller=`2`) %}body{% endcall %}", "{% call kw(`1`) %}body{% endcall %}", "{% call kw(ka=-`1`) %}body{% endcall %}",
     "{% do kw(ka=`1`, kb=`\"x\"`) %}done", "{% filter kwf(ka=`1`) %}body{% endfilter %}", "{% set x | kwf(ka=`1`, kb=`2`) %}body{% endset %}{{ x }}",
+    "{% call ob.m(ka=`1`) %}body{% endcall %}", "{% call ob.m(`0`, ka=`1`, kb=`\"x\"`) %}body{% endcall %}", "{% call ob[`\"f\"`](ka=`1`) %}body{% endcall %}",
+    "{% call ob.f(*[`1`], ka=`2`) %}body{% endcall %}", "{% call kw(**{`\"ka\"`: `1`}) %}body{% endcall %}", "{% call kw(ka=`1`, **{`\"kb\"`: `2`}) %}body{% endcall %}",
+    "{% do ob.m(ka=`1`) %}done", "{% do ob[`\"f\"`](*[`1`], ka=`2`) %}done", "{% filter kwf(*[`1`], ka=`2`) %}body{% endfilter %}",
     "{% extends `\"base.txt\"` %}{% if `false` %}{% block b %}child{% endblock %}{% endif %}",
     "{% extends `\"base.txt\"` %}{% if `true` %}{% block b %}child{% endblock %}{% endif %}",
     "{% if `true` %}A{% else %}{% block b %}B{% endblock %}{% endif %}|{{ self.b() }}",
@@ -1524,6 +2182,8 @@ const SEEDS: &[&str] = &[
     "kw(*[`0` and `1`], ka=`1` // `0`)", "{`1`: `2`, `1`: `3`}", "{`1`: `2`, `1.0`: `3`}", "{`1`: `2`, `true`: `3`}", "{`\"a\"`: `1`, `\"a\"`: `2`}",
     "{`[1]`: `2`}", "{[`1`]: `2`}", "{`{}`: `2`}", "{`none`: `1`}", "{`2`: `1`, `1`: `2`}",
     "{`\"b\"`: `1`, `\"a\"`: `2`}", "{`1.5`: `1`}", "{`(1, 2)`: `3`}", "[`1`, `\"a\"`, `none`, `true`, `1.5`]",
+    // an exact tie between two shortest digit strings goes up: 900719925474099.25 -> "900719925474099.3"
+    "(`9007199254740993` / `10.0`) ~ `\"\"`", "`900719925474099.25` ~ `\"\"`", "[`0.5`, `2.5`, `1e23`, `9007199254740993.0`, `4.35`, `0.3`] ~ `\"\"`",
     "`1.0`", "`1.5`", "`1e100`", "`1e400`", "`0.1` + `0.2`", "`1` / `3`", "`2` ** `0.5`", "`1e308` * `10`",
     "`1` + `1.0`", "`9007199254740993` + `0.0`", "`9007199254740993` == `9007199254740993.0`",
     "`9007199254740992` == `9007199254740992.0`", "`1` == `1.0`", "`1` == `true`", "`1` < `true`",
@@ -1537,6 +2197,13 @@ const SEEDS: &[&str] = &[
     "kw(ka=`none`)", "kw(ka=`1.5`)", "kw(ka=`0` and `1`)", "kw(`0` and `1`, ka=`1`)", "kw(ka=`1` // `0`)",
     "`1`|kwf(ka=`2`)", "(`1` + `1`)|kwf(ka=`2`, kb=`3`)", "`\"x\"`|kwf(ka=`none`)", "kw(ka=`9223372036854775808`)",
     "kw(ka=`340282366920938463463374607431768211455`)", "kw()", "kw(`1`)",
+    "ob.m(`1`, ka=`2`)", "ob.m(ka=`1`, kb=`\"x\"`)", "ob.m(ka=`1`, ka=`2`)", "ob.m(ka=-`1`)", "ob.m(*[`1`, `2`], ka=`3`)", "ob.m(**{`\"ka\"`: `1`})",
+    "ob.f(`1`, ka=`2`)", "ob.f(ka=`1`)", "ob[`\"f\"`](`1`, ka=`2`)", "ob[`\"f\"`](ka=`1`, kb=`2`)", "[kw][`0`](ka=`1`)", "[kw][`0`](*`[1, 2]`, **`{\"ka\": 3}`)",
+    "{`\"f\"`: kw}.f(ka=`1`)", "ob.nosuch(ka=`1`)", "ob[`\"g\"`](ka=`1`)", "`5`(ka=`1`)", "u.m(ka=`1`)", "u(ka=`1`)",
+    "`1`|kwf(*[`2`, `3`])", "`1`|kwf(*`[2]`, ka=`3`)", "`1`|kwf(ka=`2`, **{`\"kb\"`: `3`})", "`1`|kwf(**`{\"ka\": 1}`, ka=`2`)",
+    "`1` is kwt", "`1` is kwt(`2`)", "`1` is kwt(ka=`2`)", "`1` is kwt(`2`, ka=`3`)", "`1` is kwt(*[`2`, `3`])", "`1` is kwt(*`[2]`, ka=`3`, **{`\"kb\"`: `4`})", "`1` is not kwt(ka=`1`, ka=`2`)",
+    "kw(*`\"ab\"`)", "kw(*`{\"b\": 1, \"a\": 2}`)", "kw(*`none`)", "kw(*u)", "kw(**u)", "kw(**`none`)", "kw(**`[1]`)", "kw(**{`1`: `2`})", "kw(*`5`, **u)",
+    "kw(*[`1`], `2`, *[`3`])", "kw(ka=`1`, **{`\"ka\"`: `2`}, ka=`3`)", "kw(**{`\"ka\"`: `1`}, **{`\"ka\"`: `2`, `\"kb\"`: `3`})", "kw(*[`1` // `0`], ka=`1`)", "kw(ka=`1`, **{`\"kb\"`: `1` // `0`})",
     "u", "u and `1`", "`0` and u", "`1` or u", "u or `1`", "`1` and u", "`1` + u", "u == `1`", "`1` in u",
     "u in `[1]`", "`\"a\"` ~ u", "-u", "[u]", "{`1`: u}", "kw(ka=u)", "`1` < `2` < u", "`1` == u",
 ];
@@ -1555,7 +2222,7 @@ fn seed_case(mode: &str, s: &str) -> Case {
             src.push(ch);
         }
     }
-    Case { mode: mode.into(), src, spans, tmpl: false }
+    Case { mode: mode.into(), src, spans, tmpl: false, tag: "-".into() }
 }
 
 /// With `preserve_order` maps are IndexMaps keyed through `Hash`, and `true == 1` / `false == 0`
@@ -1588,7 +2255,7 @@ fn main() {
     match args.get(1).map(|s| s.as_str()) {
         Some("gen") => {
             let tier = args.get(2).map(|s| s.as_str()).unwrap_or("quick");
-            let n = if tier == "thorough" { 400000 } else { 12000 };
+            let n = if tier == "thorough" { 300000 } else { 12000 };
             // `gen <tier> small`: a quarter of the cases (used for the `preserve_order` build)
             let n = if args.get(3).map_or(false, |s| s == "small") { n / 4 } else { n };
             for (i, s) in SEEDS.iter().enumerate() {
@@ -1615,7 +2282,42 @@ fn main() {
                     continue;
                 }
                 let mode = *rng.pick(&MODES);
-                writeln!(out, "{}", run_case(&Case { mode: mode.into(), src, spans, tmpl: false }, &mut rng)).unwrap();
+                writeln!(out, "{}", run_case(&Case { mode: mode.into(), src, spans, tmpl: false, tag: "-".into() }, &mut rng)).unwrap();
+            }
+            // the size-class stream: every operator form x every container size, items and probes from the
+            // cross-kind equality classes; containers hoisted item by item and as a whole
+            let small = args.get(3).map_or(false, |s| s == "small");
+            let rounds = if tier == "thorough" { 30 } else { 3 };
+            let mut combo = 0usize;
+            for round in 0..rounds {
+                for (tmpl, forms) in [(false, SIZED_EXPR_FORMS), (true, SIZED_STMT_FORMS)] {
+                    for (fi, form) in forms.iter().enumerate() {
+                        for n in SIZES {
+                            combo += 1;
+                            if small && (combo + combo / 12 + round) % 4 != 0 {
+                                continue;
+                            }
+                            let z = gen_sized(&mut rng, n);
+                            let mut src = String::new();
+                            let mut spans = vec![];
+                            emit_form(&mut rng, form, &z, &mut src, &mut spans);
+                            if spans.len() > 120 || po_unstable(&src, tmpl) {
+                                continue;
+                            }
+                            let mode = *rng.pick(&MODES);
+                            let tag = format!("sized:{}{}:{}:{}", if tmpl { "s" } else { "e" }, fi, n, CLASSES[z.class].0);
+                            writeln!(out, "{}", run_case(&Case { mode: mode.into(), src, spans, tmpl, tag }, &mut rng)).unwrap();
+                        }
+                    }
+                }
+            }
+            for (i, s) in EMIT_SEEDS.iter().enumerate() {
+                for cfg in 0..4 {
+                    let mut c = seed_case(MODES[(i + cfg) % 4], s);
+                    c.tmpl = true;
+                    c.tag = format!("cfg{}", cfg);
+                    writeln!(out, "{}", run_case(&c, &mut rng)).unwrap();
+                }
             }
             // the statement stream: literals in statement heads, defaults, include targets, …
             for (i, s) in STMT_SEEDS.iter().enumerate() {
@@ -1637,7 +2339,7 @@ fn main() {
                     continue;
                 }
                 let mode = *rng.pick(&MODES);
-                writeln!(out, "{}", run_case(&Case { mode: mode.into(), src, spans, tmpl: true }, &mut rng)).unwrap();
+                writeln!(out, "{}", run_case(&Case { mode: mode.into(), src, spans, tmpl: true, tag: "-".into() }, &mut rng)).unwrap();
             }
         }
         Some("one") => {
@@ -1655,7 +2357,8 @@ fn main() {
                     .collect()
             };
             let tmpl = args.get(5).map_or(false, |t| t == "t");
-            let c = Case { mode, src, spans, tmpl };
+            let tag = args.get(6).cloned().unwrap_or_else(|| "-".to_string());
+            let c = Case { mode, src, spans, tmpl, tag };
             eprintln!("source: {}", c.src);
             writeln!(out, "{}", run_case(&c, &mut rng)).unwrap();
         }
